@@ -3,10 +3,221 @@
   used by the exhaustive enumerations (mirrors harness/tv-fs/src/gen.rs).
 -/
 import TvFs.Model.Fs
+import TvFs.Model.Spec
 
 namespace TV.Fs
 
-def matchingPatterns (_prop : String) (_h : List Op) : List String := []
+/-! ### pattern monitor
+
+  A pattern is a decidable predicate on a history.  It is evaluated by replaying the history on the
+  implementation model and looking, at every step, at the *shape of the op together with the
+  pending log it meets* — never at "the history contains a rename". -/
+
+def pendingRenameTouching (fs : Fs) (x : Path) : Bool :=
+  fs.pending.any fun o => match o with
+    | .rename s d => s == x || d == x
+    | _ => false
+
+def pendingDataOn (fs : Fs) (x : Path) : Bool :=
+  fs.pending.any fun o => match o with
+    | .write p _ _ => p == x
+    | .setLen p _ => p == x
+    | _ => false
+
+/-- the file a data / create op addresses, with the kind of access -/
+inductive Touch where
+  | create (p : Path)          -- creates a file that does not exist
+  | trunc (p : Path)           -- open with truncate of an existing file
+  | write (p : Path) (off : Nat) (len : Nat)
+  | setLen (p : Path) (n : Nat)
+  deriving Repr
+
+def touches (st : St) : Op → List Touch
+  | .open _ p fl =>
+    (if (fl.c || fl.n) && !(fileExists st.fs p) then [.create p] else [])
+    ++ (if fl.t && fl.w then [.trunc p] else [])
+  | .writeFile p d =>
+    (if !(fileExists st.fs p) then [.create p] else []) ++ [.trunc p]
+    ++ (if d.isEmpty then [] else [.write p 0 d.length])
+  | .writeAt s off d =>
+    match getSlot st s with
+    | some h => if h.writable && !d.isEmpty then [.write h.path off d.length] else []
+    | none => []
+  | .write s d =>
+    match getSlot st s with
+    | some h =>
+      if h.writable && !d.isEmpty then
+        [.write h.path (if h.append then fileLen st.fs h.path else h.cursor) d.length] else []
+    | none => []
+  | .setLen s n =>
+    match getSlot st s with
+    | some h => if h.writable then [.setLen h.path n] else []
+    | none => []
+  | _ => []
+
+def touchPath : Touch → Path
+  | .create p => p | .trunc p => p | .write p _ _ => p | .setLen p _ => p
+
+/-- F-C10-1: the file grows past a still-pending `SetLen` of the same path (stale bytes reappear) -/
+def patShrinkGrow (st : St) (op : Op) : Bool :=
+  (touches st op).any fun t =>
+    match t with
+    | .setLen p m => st.fs.pending.any fun o => match o with | .setLen q n => q == p && n < m | _ => false
+    | .write p off _ => st.fs.pending.any fun o => match o with | .setLen q n => q == p && n < off | _ => false
+    | _ => false
+
+/-- F-C10-2: a file is created under a name that still carries state of a removed / renamed-away
+    file (persisted inode or pending data ops keyed by that path) -/
+def patRecreate (st : St) (op : Op) : Bool :=
+  (touches st op).any fun t =>
+    match t with
+    | .create p => (alookup p st.fs.files).isSome || pendingDataOn st.fs p
+    | _ => false
+
+/-- F-C10-3: a data op or create addresses a path that is source or destination of a pending rename -/
+def patDataAcrossRename (st : St) (op : Op) : Bool :=
+  (touches st op).any fun t => pendingRenameTouching st.fs (touchPath t)
+
+def popPaths : POp → List Path
+  | .createFile p => [p] | .createDir p => [p] | .write p _ _ => [p] | .setLen p _ => [p]
+  | .rename s d => [s, d] | .removeFile p => [p] | .removeDir p => [p]
+
+def sharePath (a b : POp) : Bool := (popPaths a).any fun p => (popPaths b).contains p
+
+/-- does flushing the ops selected by `sel` move some op ahead of an *earlier* op it shares a path
+    with (which stays in the log)?  `benign k f` exempts pairs the code special-cases. -/
+def reorders (sel : POp → Bool) (benign : POp → POp → Bool) : List POp → List POp → Bool
+  | _, [] => false
+  | kept, o :: r =>
+    if sel o then (kept.any fun k => sharePath k o && !(benign k o)) || reorders sel benign kept r
+    else reorders sel benign (kept ++ [o]) r
+
+/-- F-C10-4: a sync flushes a subset of the log past an earlier, dependent op that stays pending
+    (`sync_dir`: rename / remove / create of an entry whose data ops or own creation are keyed by
+    another directory; `sync_all`/`sync_data`: data ops of a path that was removed or renamed) -/
+def patSyncReorders (st : St) (op : Op) : Bool :=
+  let fileSync (path : Path) : Bool :=
+    fileExists st.fs path &&
+      reorders (isDataOpOf path) (fun k _ => match k with | .createFile _ => true | _ => false) [] st.fs.pending
+  match op with
+  | .syncDir d => dirExists st.fs d && reorders (isDirOpOf d) (fun _ _ => false) [] st.fs.pending
+  | .syncAll s => match getSlot st s with | some h => fileSync h.path | none => false
+  | .syncData s => match getSlot st s with | some h => fileSync h.path | none => false
+  | _ => false
+
+/-- F-C10-5: rename of a directory -/
+def patRenameDir (st : St) (op : Op) : Bool :=
+  match op with
+  | .rename p _ => dirExists st.fs p && !(fileExists st.fs p)
+  | _ => false
+
+/-- F-C10-6: a rename whose source or destination is itself source or destination of a pending rename -/
+def patRenameAcrossRename (st : St) (op : Op) : Bool :=
+  match op with
+  | .rename p q => fileExists st.fs p && (pendingRenameTouching st.fs p || pendingRenameTouching st.fs q)
+  | _ => false
+
+/-- F-C10-7: `rmdir` of a directory whose only children arrived by a pending rename -/
+def patRmdirRenamedIn (st : St) (op : Op) : Bool :=
+  match op with
+  | .rmdir d => st.fs.pending.any fun o => match o with
+      | .rename _ t => isChildOf t d && fileExists st.fs t
+      | _ => false
+  | _ => false
+
+def opSlot : Op → Option Nat
+  | .writeAt s _ _ => some s | .readAt s _ _ => some s | .write s _ => some s | .read s _ => some s
+  | .seek s _ _ => some s | .setLen s _ => some s | .syncAll s => some s | .syncData s => some s
+  | .hmeta s => some s
+  | _ => none
+
+/-- F-C10-8: an op through an open handle whose name no longer denotes the file it was opened on
+    (the file was unlinked, renamed away or replaced since; handles are keyed by path) -/
+def patStaleHandle (sp : Spec) (op : Op) (st : St) : Bool :=
+  match opSlot op with
+  | none => false
+  | some s =>
+    match getSlot st s, sGetSlot sp s with
+    | some h, some sh => entAt sp h.path != some (.file sh.fid)
+    | _, _ => false
+
+/-- the paths an op addresses (used to tie a pattern hit and an observed divergence together) -/
+def opPaths (st : St) : Op → List Path
+  | .open _ p _ => [p] | .mkdir p => [p] | .mkdirAll p => [p] | .rmdir p => [p] | .rmdirAll p => [p]
+  | .unlink p => [p] | .rename p q => [p, q] | .syncDir p => [p] | .readDir p => [p] | .stat p => [p]
+  | .exists p => [p] | .readFile p => [p] | .writeFile p _ => [p]
+  | .dump _ => [] | .crash => []
+  | op => match opSlot op with
+    | some s => match getSlot st s with | some h => [h.path] | none => []
+    | none => []
+
+/-- a pattern hit: finding number and the paths it taints -/
+abbrev Taint := Nat × Path
+
+def patternsAt (st : St) (sp : Spec) (op : Op) : List Taint :=
+  let ps := opPaths st op
+  let mk (n : Nat) (b : Bool) (extra : List Path) : List Taint := if b then (ps ++ extra).map fun p => (n, p) else []
+  let syncExtra : List Path := match op with
+    | .syncDir d => (st.fs.pending.filter (isDirOpOf d)).flatMap popPaths
+    | _ => []
+  let rmdirExtra : List Path := match op with
+    | .rmdir d => st.fs.pending.flatMap fun o => match o with
+        | .rename _ t => if isChildOf t d then [t] else []
+        | _ => []
+    | _ => []
+  -- paths linked to the op's paths through pending renames (the replay functions alias them)
+  let link (acc : List Path) : List Path :=
+    acc ++ (st.fs.pending.flatMap fun o => match o with
+      | .rename s d => if acc.contains s || acc.contains d then [s, d] else []
+      | _ => [])
+  let partners := link (link (link ps))
+  mk 1 (patShrinkGrow st op) []
+  ++ mk 2 (patRecreate st op) partners
+  ++ mk 3 (patDataAcrossRename st op) partners
+  ++ mk 4 (patSyncReorders st op) syncExtra
+  ++ mk 5 (patRenameDir st op) []
+  ++ mk 6 (patRenameAcrossRename st op) partners
+  ++ mk 7 (patRmdirRenamedIn st op) rmdirExtra
+  ++ mk 8 (patStaleHandle sp op st) (match opSlot op with
+      | some sl => match sGetSlot sp sl with
+        | some sh => sp.ents.filterMap fun kv => if kv.2 == .file sh.fid then some kv.1 else none
+        | none => []
+      | none => [])
+
+def related (p q : Path) : Bool := p.isPrefixOf q || q.isPrefixOf p
+
+/-- taints follow successful renames -/
+def propagate (ts : List Taint) (op : Op) (ok : Bool) : List Taint :=
+  match op with
+  | .rename x y =>
+    if ok then ts ++ (ts.filterMap fun t => if x.isPrefixOf t.2 then some (t.1, y ++ t.2.drop x.length) else none)
+    else ts
+  | _ => ts
+
+/-- monitor step: taints after `op` (state arguments are the states *before* the op) -/
+def monStep (cfg : Cfg) (ts : List Taint) (st : St) (sp : Spec) (op : Op) (ora : Ora) : List Taint :=
+  let ts1 := ts ++ patternsAt st sp op
+  propagate ts1 op ((step cfg st op ora).2 == .ok)
+
+/-- the finding that explains a divergence observed at `paths`: the earliest taint on a related path -/
+def explain (ts : List Taint) (paths : List Path) : Option Nat :=
+  match ts.find? (fun t => paths.any fun p => related t.2 p) with
+  | some t => some t.1
+  | none => none
+
+def findingId (prop : String) (n : Nat) : String := s!"F-{prop}-{n}"
+
+/-- whole-history versions (used by the theorems and the pure-Lean enumeration) -/
+def taintsOf (cfg : Cfg) : List Taint → St → Spec → List (Op × Ora) → List Taint
+  | ts, _, _, [] => ts
+  | ts, st, sp, (op, ora) :: r =>
+    taintsOf cfg (monStep cfg ts st sp op ora) (step cfg st op ora).1 (sStep cfg sp op ora).1 r
+
+def matchesFinding (n : Nat) (h : List Op) : Bool :=
+  (taintsOf {} [] St.init Spec.init (h.map fun o => (o, {}))).any fun t => t.1 == n
+
+def matchesAnyFinding (h : List Op) : Bool :=
+  !(taintsOf {} [] St.init Spec.init (h.map fun o => (o, {}))).isEmpty
 
 /-! ### macro ops (each expands to a few shim calls on the reserved slot 3) -/
 
